@@ -196,6 +196,22 @@ def printed_tuples(r, tag):
     return [ln.strip() for ln in r.printed if ln.strip().startswith(pref)]
 
 
+def parse_state(text):
+    """A counterexample state block (as in TLCResult.trace) -> {variable: parsed value}."""
+    out = {}
+    for m in re.finditer(r'^/\\ (\w+) = (.*?)(?=^/\\ \w+ = |\Z)', text, re.S | re.M):
+        try:
+            out[m.group(1)] = parse_tla_value(m.group(2).strip())
+        except (AssertionError, IndexError):
+            out[m.group(1)] = None
+    return out
+
+
+def fn_get(f, k):
+    """Value of a parsed TLA+ function (tuple display -> list, :> display -> dict) at k."""
+    return f[k - 1] if isinstance(f, list) else f[k]
+
+
 def parse_tla_value(s):
     """Parse a small subset of TLC's value syntax (ints, strings, tuples, sets, records,
     booleans) into Python (tuples -> list, sets -> list, records -> dict)."""
